@@ -341,10 +341,15 @@ bool PeriodicExportingMetricReader::OnForceFlush(std::chrono::microseconds timeo
 
 bool PeriodicExportingMetricReader::OnShutDown(std::chrono::microseconds timeout) noexcept
 {
-  if (worker_thread_.joinable())
   {
-    cv_.notify_all();
-    worker_thread_.join();
+    // Shutdown may be requested from several threads: a later caller waits until the first one has
+    // joined the worker and then finds it no longer joinable.
+    std::lock_guard<std::mutex> guard(worker_join_m_);
+    if (worker_thread_.joinable())
+    {
+      cv_.notify_all();
+      worker_thread_.join();
+    }
   }
   return exporter_->Shutdown(timeout);
 }
